@@ -8,6 +8,7 @@ import random
 from fractions import Fraction
 
 import rates as R
+import ratesjson as RJ
 from common import run_harness, run_model, qenc, Reader
 
 
@@ -477,6 +478,11 @@ def run(res, ctx):
         batch.append((truth, today, avail, gen_rows(rng, lo, max(lo, hi), rng.randint(1, 6))))
     check_rows(res, ctx, batch)
 
+    # the remote document layer: generated documents as text to parse_rates_json, as trees to Model/RatesJson.v
+    # (C12_document_to_observations, C12_malformed_document_is_error); number tokens one by one
+    rng_j = random.Random(seed * 7919 + 1212)
+    jsonnum = RJ.run_pass(res, ctx, rng_j, 4000 if tier == "quick" else 40000, 3000 if tier == "quick" else 30000)
+
     if ctx["corr_diffs"] and not res.violations:
         hc, d = ctx["corr_diffs"][0]
         res.violation("broken-correspondence", "model and implementation differ: " + d,
@@ -492,10 +498,13 @@ def run(res, ctx):
         "lookups_checked_against_rule": st["lookups"],
         "division_validation": div,
         "calendar_validation": dates,
+        "json_number_validation": jsonnum,
+        "json_documents": {k: v for k, v in sorted(st.items()) if k.startswith("json-")},
         "traces_validated_against_impl": st["evaluations"],
     })
     res.assumptions += [
-        "json crate parsing of the Bank of Canada document is exercised (generated documents), not modelled: the model starts from the per-observation view (date / noon value / daily value each absent, unusable or a positive decimal)",
+        "the json crate's text -> tree parsing (objects, arrays, strings, escapes) is a hypothesis: the tree given to Model/RatesJson.v is built from the same text with Python's json module (members in document order, number tokens kept as text); number tokens -> (sign, u64 mantissa, i16 exponent) -> Display -> Decimal::from_str IS modelled and compared token by token",
+        "Decimal::from_str is modelled exactly on [+-] digits [. digits] with <= 28 fractional digits and a mantissa <= 2^96-1 (the generator stays inside; longer fractions are rounded and `_` separators accepted by rust_decimal, not modelled)",
         "premise of the rule: observations of a year arrive in ascending date order, one per day, none dated after today (the Bank of Canada does not publish future rates)",
         "rust_decimal division = fit and time crate calendar = Model/Rates.v year_of/jan1 are assumed oracles, re-validated on every run",
     ]
@@ -514,7 +523,16 @@ def replay(res, ctx, path):
     elif mode == "rows":
         truth, today, avail, rows = case
         check_rows(r2, ctx, [([R.load_obs(o) for o in truth], today, avail, rows)])
+    elif mode == "doc":
+        check_docs_replay(r2, ctx, case, rep)
+    elif mode == "num":
+        RJ.check_numbers(r2, ctx, list(case))
     else:
         print("replay: this replay file names no input (%s)" % rep.get("what", "")[:200])
         return 1
     return R.replay_report(r2, ctx, mode)
+
+
+def check_docs_replay(r2, ctx, text, rep):
+    """a document replayed from its text (no expectation attached: correspondence and the never-zero clause)"""
+    RJ.check_docs(r2, ctx, [("replay", RJ.tree_of_text(text), None)])
